@@ -41,6 +41,20 @@ def regex_inputs(rng, names, n):
     return out
 
 
+def boundary_inputs(rng, seeds):
+    """every truncation of the last 70 bytes, the text twice (same text found twice in one call), at offset 0 / at the very end, one junk byte glued on each side"""
+    out = []
+    for w in seeds:
+        for k in range(max(0, len(w) - 70), len(w)):
+            out.append(w[:k])
+        out.append(w + b" " + w)
+        out.append(w + w)
+        out.append(w.strip())
+        out.append(b"a" + w + b"a")
+        out.append(b"\x00" + w + b"\xff")
+    return out
+
+
 class ToolRecorder:
     """records the calls to the two external tools (pefile-based pe_size, xortool) made while a function runs, so that the
     model can be given the same answers (they are oracles of the model, not modelled code)"""
@@ -81,6 +95,7 @@ def run_decoder_probe(ctx, decoders, extra_inputs=(), n_regex=60, n_corpus=150, 
         inputs = list(extra_inputs)
         inputs += regex_inputs(ctx.rng, DECODER_REGEX.get(dn, []), ctx.budget(n_regex, n_regex * 10))
         inputs += corpus_gen.gen_inputs(ctx.rng, ctx.budget(n_corpus, n_corpus * 10), kinds)
+        inputs += boundary_inputs(ctx.rng, [d for d in inputs if 0 < len(d) < 400][: ctx.budget(6, 40)])
         inputs = [d for d in inputs if len(d) < 9000]
         args, outs = [], {}
         for d in inputs:
@@ -98,6 +113,14 @@ def run_decoder_probe(ctx, decoders, extra_inputs=(), n_regex=60, n_corpus=150, 
             if oracle is None:
                 return None
             return oracle(dn, arg[1], out)
-        ctx.compare("decoder", args, lambda a: outs[id(a)],
+        def impl_again(a, fn=fn, seen=set()):
+            if id(a) not in seen:           # first call: the answer recorded together with the tool tables
+                seen.add(id(a))
+                return outs[id(a)]
+            try:
+                return with_timeout(lambda: impl_call(lambda: [node_val(h) for h in fn(a[1])]), 20)
+            except ScanTimeout:
+                return ["hang"]
+        ctx.compare("decoder", args, impl_again,
                     nontrivial=lambda a, o: o[0] == "ok" and len(o[1]) > 0, oracle=orc,
                     classify=lambda a, o, dn=dn: "%s:%s" % (dn, (min(len(o[1]), 2) if o[0] == "ok" else o[0] + ":" + str(o[1:]))))
